@@ -12,6 +12,15 @@ CHECKS = {
  "C01": (True, "exploration", "deterministic simulation: seeded histories on one VM with abort/cancel/callback faults, worker-process crash isolation",
    "Seeded search over simulated host histories (commands, budgets, cancellation at a chosen tick, callback faults, observation bursts after every command, successful or not) on one long-lived VM; every escaped panic, fatal worker death (stack/heap), stuck IsRunning or API-contract breach is a violation with a replayable, minimised scenario. Sampling, not proof; inputs are what the generator, its mutators and an adversarial list produce.",
    "Trusts the Go runtime's panic/fatal reporting and the worker-isolation supervisor. Not decided: arbitrary byte strings as such.", "DESIGN.md §4 C01", ENGINE_SESSION),
+ "C11": (True, "exploration", "deterministic simulation: seeded cooperative scheduler over real goroutines (TSan-blind hand-off) + race detector + twin run alone vs interleaved",
+   "2-4 goroutines each own a VM and run generated programs; a seeded scheduler (uniform / PCT-like / run-to-conflict) decides every interleaving at instruction, die and language-write/read yield points, in a -race build whose hand-off pipes carry no race annotations, so real races are still reported. Oracles: no race report with a dicescript frame; each seeded task's outcomes equal its isolated run; error texts in the task's language. Schedules are explicit in replay files. Sampling of interleavings, not enumeration.",
+   "Preemption happens only at yield points (VM instruction boundaries, Roll calls, Parse after the language write, error formatter before the language read). ThreadSanitizer misses are misses, never false alarms.", "DESIGN.md §4 C11, §3.6", ENGINE_SCHED),
+ "C12": (True, "exploration", "deterministic simulation: exhaustive+random sequential histories vs a Go map; seeded schedules over AST-instrumented valuemap.go with porcupine linearizability checking and the race detector",
+   "Sequential: every operation sequence up to length 4 (thorough 5) over two keys, plus random and shape-directed longer ones, compared operation by operation with a Go map and with the script-visible dict observers. Concurrent: random histories of 2-4 goroutines on valuemap.go instrumented with a preemption point before every statement; recorded invoke/return histories are checked with porcupine against a sequential map (Range as per-key reads within its interval, Length bounded while writers run, both exact once quiescent); TSan on. Deadlock (lock never released) is detected by the scheduler.",
+   "Statement-level interleavings of valuemap.go; Go atomics sequentially consistent. Porcupine timeouts are counted inconclusive.", "DESIGN.md §4 C12, §3.5", ENGINE_SCHED),
+ "C19": (True, "exploration", "deterministic simulation: seeded schedules of VMs with different error languages; twin run alone vs interleaved",
+   "Goroutines with error languages 0/1/2 evaluate mostly rejected inputs under the seeded scheduler with preemption points between the language write and read; each error text must be purely in its VM's language and equal the text the same input gives alone. Line/column/quoted-line/caret arithmetic is monitored on the rejected inputs that occur, not claimed as covered.",
+   "Decides the 'a VM's choice never changes another VM's messages' clause and single-language purity; geometry is monitored only on generated inputs.", "DESIGN.md §4 C19", ENGINE_SCHED),
 }
 
 NA = {
